@@ -10,7 +10,7 @@
 (* 2); an illegal move leaves the board untouched and spawns nothing.  The *)
 (* episode ends when no move is legal.                                     *)
 (***************************************************************************)
-EXTENDS Integers, Sequences, FiniteSets, TLC
+EXTENDS EnvKit
 
 CONSTANT Cfg            \* [board_size |-> N]
 N == Cfg.board_size
@@ -33,7 +33,6 @@ SlideLine(row) ==
   LET m == Merge(Compress(row))
   IN  [row |-> m.row \o [j \in 1..(Len(row) - Len(m.row)) |-> 0], rew |-> m.rew]
 
-Rev(sq) == [j \in 1..Len(sq) |-> sq[Len(sq) + 1 - j]]
 
 (* line k of the board read from the side the tiles move towards *)
 Line(b, a, k) ==
@@ -49,8 +48,6 @@ Unline(ls, a) ==
     [] a = 0 -> [r \in Idx |-> [c \in Idx |-> ls[c][r]]]
     [] a = 2 -> [r \in Idx |-> [c \in Idx |-> ls[c][N + 1 - r]]]
 
-RECURSIVE SumTo(_, _)
-SumTo(f, k) == IF k = 0 THEN 0 ELSE f[k] + SumTo(f, k - 1)
 
 Slide(b, a) ==
   LET sl == [k \in Idx |-> SlideLine(Line(b, a, k))]
